@@ -356,12 +356,28 @@ func (g *gen) cmd(depth int) Cmd {
 	}
 	if depth == 0 {
 		if g.p.li && g.r.Chance(0.35) {
-			g.liNext += uint64(g.r.Range(1, 3))
+			if c.T == "seq" && g.liNext > 0 && g.r.Chance(0.15) {
+				// a sequence proposed a second time (indeterminate first proposal, stale lease): same leader index
+			} else {
+				g.liNext += uint64(g.r.Range(1, 3))
+			}
 			li := g.liNext
 			if g.r.Chance(0.05) {
 				li = 0 // Reset-style
 			}
 			c.LI = &li
+			if c.T == "seq" && li > 0 && g.r.Chance(0.6) {
+				// as the replication worker builds it: every command of the sequence carries its own leader
+				// index, consecutive, the last one being the sequence's; a sequence longer than the step
+				// the leader index took reaches back into what earlier sequences replicated
+				for i := range c.Seq {
+					back := uint64(len(c.Seq) - 1 - i)
+					if back < li {
+						v := li - back
+						c.Seq[i].LI = &v
+					}
+				}
+			}
 		}
 		if g.r.Chance(0.12) {
 			c.Gap = g.r.Range(1, 3)
